@@ -395,5 +395,11 @@ pub fn run(rep: &mut Rep) {
     wr.drops = true;
     wr.handle_churn = true;
     rep.note("walks across connections (handle clones created and dropped along the way): the same alphabet plus {EOF, read error, server DISCONNECT, user DISCONNECT} and, once run() has returned, 'connect the same Context again' (session resumed / resumed under Receive Maximum 2 / expired / no disconnection recorded); unfinished QoS 1/2 publishes complete on the acknowledgements of the new connection, everything else keeps its own result");
+    // a Maximum Packet Size of 64 / 100 bytes: 300-byte publishes, subscribes and unsubscribes are refused locally in the midst
+    // of operations waiting for their acknowledgements - which go on being served
+    let mut wm = wa.clone();
+    wm.kinds.push(Kind::PubBig);
+    rep.note(&format!("{} walks under Maximum Packet Size 64 / 100 with every third subscribe / unsubscribe and the PubBig publishes larger than that", walks / 2));
+    walk_world(rep, "walkmps", walks / 2, steps, &|s| World::boot(WorldCfg { seed: s, max_packet: Some(if s % 2 == 0 { 64 } else { 100 }), order: (s % 4) as u8, ..Default::default() }), &wm);
     walk_world(rep, "walkrc", walks, steps, &|s| World::boot(WorldCfg { seed: s, sei: if s % 3 == 0 { None } else { Some(3600) }, order: (s % 4) as u8, ..Default::default() }), &wr);
 }
